@@ -56,6 +56,9 @@ type c06Exp struct {
 	lastSeq  map[byte]int
 	sd, ff   int
 	closedOK bool
+	// closedRepeat: a Shutdown returned nil after an EARLIER Shutdown had been cut short by its context
+	// (that call gives up on the poll goroutine, which may still be exporting: recorded finding)
+	closedRepeat bool
 	failed   int // exports that answered with an error (injected fault)
 }
 
@@ -81,6 +84,8 @@ func (e *c06Exp) Export(ctx context.Context, rs []Record) error {
 	}
 	if e.closedOK {
 		x.Fail("C06|export-after-shutdown", "Export called after Shutdown had returned nil")
+	} else if e.closedRepeat {
+		x.Fail("C06|export-after-shutdown|after a repeated Shutdown that returned nil while an earlier Shutdown, cut short by its context, had not completed", "Export called after the second Shutdown had returned nil (the first one, cut short by its context, had left the poll goroutine running)")
 	}
 	// (an Export after the exporter's own Shutdown can happen when the processor's Shutdown was cut
 	// short by its context: not part of C06's statement, which speaks about Shutdown calls that returned)
@@ -120,6 +125,13 @@ func (e *c06Exp) Export(ctx context.Context, rs []Record) error {
 		case 2:
 			sched.ChR(ctx.Done()).Recv()
 			err = ctx.Err()
+		}
+	}
+	// the slice belongs to this call until it returns: what it holds now is what it held on entry
+	for i := range rs {
+		if i >= len(ids) || rs[i].Body().AsString() != ids[i] {
+			x.Fail("C06|export-batch-changed-during-export", "the slice handed to Export changed while the call was running: on entry %v, position %d differs now", ids, i)
+			break
 		}
 	}
 	e.inflight--
@@ -240,11 +252,17 @@ func c06Body(cfg c06Cfg, sc c06Scn, res *string) func(x *sched.Exec) {
 				shutdownCalls++
 				err := bp.Shutdown(context.Background())
 				checkFlush("Shutdown", at, err)
+				if err == nil {
+					if shutdownFailedBefore {
+						e.closedRepeat = true
+					} else {
+						e.closedOK = true
+					}
+				}
 				if err != nil {
 					shutdownFailedBefore = true
 				}
 				if err == nil {
-					e.closedOK = true
 					if e.sd != 1 {
 						x.Fail("C06|exporter-not-shut-down", "processor Shutdown returned nil, exporter Shutdown called %d times", e.sd)
 					}
@@ -259,11 +277,15 @@ func c06Body(cfg c06Cfg, sc c06Scn, res *string) func(x *sched.Exec) {
 				shutdownCalls++
 				err := bp.Shutdown(ctx)
 				checkFlush("Shutdown", at, err)
+				if err == nil {
+					if shutdownFailedBefore {
+						e.closedRepeat = true
+					} else {
+						e.closedOK = true
+					}
+				}
 				if err != nil {
 					shutdownFailedBefore = true
-				}
-				if err == nil {
-					e.closedOK = true
 				}
 			}
 		}
@@ -280,6 +302,11 @@ func c06Body(cfg c06Cfg, sc c06Scn, res *string) func(x *sched.Exec) {
 		wg.Wait()
 		for _, op := range sc.tail {
 			runOp(op)
+		}
+		// let the processor's own goroutines (poll loop, export goroutine) run until they have nothing
+		// left: an Export that follows a Shutdown which returned nil is caught by the exporter's monitor
+		for k := 0; k < 8; k++ {
+			sched.SpinYield()
 		}
 		sort.Strings(results)
 		*res = fmt.Sprintf("%v drop=%d sd=%d %v", e.batches, logged+bp.q.dropped.Peek(), e.sd, results)
